@@ -389,7 +389,8 @@ pub fn check_bus(c: &BusCase, st: &mut Stats) -> Result<(), String> {
                 let next = caps2.get(k + 1).map(|x| x.0 * 4).unwrap_or(0);
                 f.regs[*o as usize] = *id as u32 | (next as u32) << 8 | (*p as u32) << 16;
             }
-            f.regs[0x34 / 4] = caps2.first().map(|x| x.0 as u32 * 4).unwrap_or(0) | 0xab00;
+            // (the two low bits of the capabilities pointer are reserved: software must mask them)
+            f.regs[0x34 / 4] = caps2.first().map(|x| x.0 as u32 * 4 | (d.class_rev >> 3 & 3)).unwrap_or(0) | 0xab00;
             d.caps = caps2;
             bus.fns.insert((c.bus, key.0, key.1), f);
             truth.insert(key, d);
